@@ -6,10 +6,10 @@ from . import resolve_common as R
 
 CLAIM = dict(
     text="Coq theorems on the MultiTypeMap state machine (Model/Cache.v; every access reports whether a resolution -- MultiTypeMap.mro, the only route to type-order / applicability computations and to user hooks -- was computed): a key present in the dict is answered without resolution and leaves the state unchanged (C20_hit_no_resolution); once an access of a key succeeded, after ANY sequence of further accesses (any keys, successful or failing) the same key is still a hit returning the same handler (C20_resolved_once), because getitem never removes or changes an entry under a plain key. Tie to /repo: generated programs whose annotations include user class predicates (class_check) that count their invocations; after a warm-up touching each call once, random sequences of direct calls, recurse and call_next re-entries must leave the counters frozen for every combination that succeeded, in agreement with the state machine's resolved flag; a registration makes them move again.",
-    note="Trusted: as C04. The theorem is about plain keys; continuation keys (call_next) are checked by the counters only. That the generated entry point and the rewritten call sites index the table directly (a subscript, not a resolver call) is part of C03 / C09's translation validation.",
+    note="Trusted: as C04. The theorems cover plain keys and continuation keys (C20_next_no_resolution: once the plain key is stored, a call_next access of the same combination computes no resolution). That the generated entry point and the rewritten call sites index the table directly (a subscript, not a resolver call) is part of C03 / C09's translation validation.",
     technique="Coq proof (monotonicity of the dict under getitem) + hook-counter correspondence", design="6 C20")
 
-THEOREMS = ["C20_hit_no_resolution", "C20_resolved_once"]
+THEOREMS = ["C20_hit_no_resolution", "C20_resolved_once", "C20_next_no_resolution"]
 ASSUMPTIONS = ["user predicates are only reachable through MultiTypeMap.mro / TypeMap.__missing__ (observed: counters never move on a model-predicted hit)"]
 
 
